@@ -180,6 +180,33 @@ fn main() {
                 Box::new(|(ev, at, input)| {
                     let cx = CTX.get().unwrap();
                     eprintln!("watchdog: {} stuck for 10 s on {:?}", ev, input);
+                    // a starved worker on a loaded machine is not a hang: the input must also fail to return
+                    // within 30 s when evaluated alone in a fresh process
+                    if let Ok(exe) = std::env::current_exe() {
+                        if let Ok(mut child) = std::process::Command::new(exe)
+                            .args(["single", &ev, if at.is_empty() { "-" } else { &at }, &input])
+                            .stdout(std::process::Stdio::null())
+                            .stderr(std::process::Stdio::null())
+                            .spawn()
+                        {
+                            let t0 = std::time::Instant::now();
+                            loop {
+                                match child.try_wait() {
+                                    Ok(Some(_)) => {
+                                        eprintln!("watchdog: {:?} returns when evaluated alone ({:.1}s): not a hang, continuing", input, t0.elapsed().as_secs_f64());
+                                        cx.note(format!("watchdog false start on {:?} (worker starved; the input returns when evaluated alone)", input));
+                                        return;
+                                    }
+                                    Ok(None) if t0.elapsed().as_secs() >= 30 => {
+                                        let _ = child.kill();
+                                        break;
+                                    }
+                                    Ok(None) => std::thread::sleep(std::time::Duration::from_millis(100)),
+                                    Err(_) => break,
+                                }
+                            }
+                        }
+                    }
                     cx.rec.add(report::Violation {
                         kind: Kind::Budget,
                         ev: ev.clone(),
